@@ -105,6 +105,7 @@ class HalfLine(GeoBody):
         """Return the HalfLine that you get when you move self by vector v, self is also moved"""
         if isinstance(v, Vector):
             self.point.move(v)
+            self.line = Line(self.point, self.vector)
             return HalfLine(self.point, self.vector)
         else:
             raise NotImplementedError(
